@@ -196,6 +196,7 @@ func runL3(args []string) {
 		fatalf("cannot start driver: %v", err)
 	}
 	defer cl.Close()
+	modelClient = cl
 	rep := newReport("l3", *seed, *tier)
 	rep.Rule = "statements of 1-3 generated output expressions over the zoo; one scripted result row whose columns are the generated aliases permuted, " +
 		"with foreign / near-miss column names interleaved, dropped or duplicated; values NULL / suitable / unsuitable per destination kind; destinations with prior contents " +
